@@ -16,6 +16,8 @@ LEVEL = "other"
 def run(chk):
     cfgs = ["base", "z"] if chk.tier == "quick" else ["base", "z", "hi", "noexc"]
     chk.configs = cfgs
+    chk.rule("OWNER.assigned", "AddLocalMinPoly / AddLocalMaxPoly: whatever GetPrevHotEdge returns, the ring's tentative owner is assigned (SetOwner, or nullptr when there "
+             "is no hot edge to the left) on every path on which tree output is possible")
     chk.rule("LOOP.bound-live", "the output builders' index loops over outrec_list_ re-read its size in every iteration: rings that CleanCollinear splits off while "
              "the solution is built (appended to the list) are emitted too - in the paths output as in the tree output")
     chk.rule("PIPELINE", "BuildPaths64/D and BuildTree64/D (+CheckBounds) perform the same call sequence with the same arguments for closed and for open contours")
@@ -40,6 +42,7 @@ def run(chk):
         e10.rule_splits_append_only(db, chk, cfg)
         from ..engines import e3_tables as e3
         e3.inside_vote_table(db, chk, cfg)
+        e10.rule_owner_assigned(db, chk, cfg)
         from ..engines import e2_state as _e2, e10_pipeline as _e10
         if _e10.rule_bound_live(db, chk, cfg, lambda cls: _e2.E2(db, chk, cfg, cls)) < 4:
             from ..extract import AnalysisBroken as _AB
